@@ -70,6 +70,47 @@ fn o_fault(c: &crate::fault::FaultCase, st: &mut Stats) -> Result<(), String> {
     }
 }
 
+// ---- formatting into sinks that fail
+
+fn sinks<I: ParseInst>(s: &str, st: &mut Stats) -> Result<(), String> {
+    use std::fmt::Write as _;
+    let Ok(Ok(p)) = parse::<I>(s) else { return Ok(()) };
+    let Ok(full) = text(&p) else { return Ok(()) };
+    // every capacity up to the length of the string (all of them for short strings, a spread for long ones)
+    let step = (full.len() / 48).max(1);
+    let mut limit = 0;
+    while limit <= full.len() {
+        let r = guard(|| {
+            let mut sink = crate::history::Bounded { left: limit };
+            let a = write!(sink, "{p}");
+            let mut sink2 = crate::history::Bounded { left: limit };
+            let b = write!(sink2, "{p:?}");
+            (a.is_ok(), b.is_ok())
+        });
+        match r {
+            Err(m) => return Err(format!("[{}] formatting {full:?} into a sink that fails after {limit} bytes panicked: {m}", I::NAME)),
+            Ok((ok, _)) => {
+                if ok != (limit >= full.len()) {
+                    return Err(format!("[{}] formatting {full:?} into a sink of {limit} bytes reported {}", I::NAME, if ok { "success" } else { "failure" }));
+                }
+            },
+        }
+        limit += step;
+    }
+    st.class("formatted-into-failing-sinks");
+    st.class_if(full.contains('?'), "formatted-with-qualifiers");
+    Ok(())
+}
+
+fn o_sinks(c: &SpelledCase, st: &mut Stats) -> Result<(), String> {
+    let s = spell(&c.tuple, &c.choices).assemble();
+    sinks::<IStr>(&s, st)?;
+    sinks::<ISmall>(&s, st)?;
+    sinks::<ITyped>(&s, st)?;
+    st.nontrivial(&("sinks", s.as_str()), || json!({ "string": s }));
+    Ok(())
+}
+
 // ---- long inputs
 
 #[derive(Clone, Debug, Serialize, Deserialize)]
@@ -402,6 +443,38 @@ pub fn sections() -> Vec<Box<dyn Section>> {
             }),
             oracle: o_ckapi,
             required: vec!["checksum-api-program"],
+        }),
+        Box::new(Random {
+            name: "format-into-failing-sinks".into(),
+            quick: 40_000,
+            thorough: 1_200_000,
+            strategy: Box::new(|_| gspelled()),
+            oracle: o_sinks,
+            required: vec!["formatted-into-failing-sinks", "formatted-with-qualifiers"],
+        }),
+        Box::new(Random {
+            name: "user-shape-parse (panics only)".into(),
+            quick: 40_000,
+            thorough: 1_200_000,
+            strategy: Box::new(|_| crate::props::c14::gparse_case()),
+            oracle: crate::props::c14::c06_parse,
+            required: vec![],
+        }),
+        Box::new(Random {
+            name: "user-shape-build (panics only)".into(),
+            quick: 40_000,
+            thorough: 1_200_000,
+            strategy: Box::new(|_| crate::props::c14::gbuild_case()),
+            oracle: crate::props::c14::c06_build,
+            required: vec![],
+        }),
+        Box::new(Random {
+            name: "user-shape-rebuild (panics only)".into(),
+            quick: 30_000,
+            thorough: 1_000_000,
+            strategy: Box::new(|_| crate::props::c14::grebuild_case()),
+            oracle: crate::props::c14::c06_rebuild,
+            required: vec![],
         }),
         Box::new(Random {
             name: "indexing".into(),
